@@ -385,13 +385,14 @@ func c24Gen(r *Rng, tier string, emit func(string)) {
 	g := &gen{r: r, out: emit}
 	nGuided, nWild := 900, 250
 	if tier == "thorough" {
-		nGuided, nWild = 20000, 5000
+		nGuided, nWild = 40000, 10000
 	}
 	// exhaustive small-alphabet sweep: two addresses on ONE ip (ports 6000 and 0), ids {1,2},
 	// mirrors {0,1}, listen ports {0,6000}
 	if tier == "thorough" {
 		exhaustive(emit, 4, []string{"10.0.0.1:6000", "10.0.0.1:0"}, []uint64{1, 2}, []uint64{0, 1}, []uint64{0, 6000})
-		exhaustive(emit, 5, []string{"10.0.0.1:6000", "10.0.0.1:0"}, []uint64{1, 2}, []uint64{0}, []uint64{0})
+		exhaustive(emit, 5, []string{"10.0.0.1:6000", "10.0.0.1:0"}, []uint64{1, 2}, []uint64{0}, []uint64{0, 6000})
+		exhaustive(emit, 4, []string{"10.0.0.1:6000", "10.0.0.2:6000", "10.0.0.1:06000"}, []uint64{1, 2}, []uint64{0}, []uint64{6000})
 	} else {
 		exhaustive(emit, 3, []string{"10.0.0.1:6000", "10.0.0.1:0"}, []uint64{1, 2}, []uint64{0, 1}, []uint64{0, 6000})
 	}
